@@ -63,7 +63,7 @@ func zScalarsSym(v *ZScalars, k int) {
 	case 12:
 		v.F64 = vFloat64("f64")
 	case 13:
-		v.S = vText("s", 2)
+		v.S = "s" + string([]rune{vScalar("s")}) + "t" // any Unicode scalar value, every UTF-8 width
 	case 14:
 		v.Bs = vBytes("bs", 2)
 	case 15:
